@@ -1252,6 +1252,9 @@ impl<'v> Serialize for Value<'v> {
     where
         S: Serializer,
     {
+        // A deeply nested value must end in an error, like in `repr` or `==`,
+        // not in a native stack overflow.
+        let _stack_guard = stack_guard::stack_guard().map_err(serde::ser::Error::custom)?;
         match json_stack_push(*self) {
             Ok(_guard) => erased_serde::serialize(self.get_ref().as_serialize(), s),
             Err(..) => Err(serde::ser::Error::custom(ToJsonCycleError(self.get_type()))),
